@@ -1,7 +1,133 @@
 import Mutagen.Driver.Util
-namespace Mutagen.Driver.C10
+import Mutagen.Driver.Tree
+import Mutagen.Driver.TransFS
+import Mutagen.Model.Store
+/-!
+C10 line protocol (Go side: `harness/cmd/c10`). Three kinds of line:
 
-/-- Model-side handler for one line of the C10 correspondence stream. -/
-def handle (_line : String) : String := "unimplemented"
+```
+S <maxSize> <hash> <cmd> {<cmd>}       store operation sequence
+    cmd := init | alloc | w:<id>:<hex> | c:<id>:<path>:<renameFails 0|1> | d:<id>
+         | has:<path>:<digestHex> | path:<path>:<digestHex> | fin | block:<hexByte> | rootfile
+R <maxSize> <hash> <files> <msgs>      rsync receiver feeding a fresh, initialized store
+    files := file {';' file}           file := <path>/<baseHex | '!' unopenable>/<blockSize>/<lastBlockSize>/<blocks>
+    msgs  := '-' | msg {',' msg}       msg := 'D' <f> | 'o' <dataHex> ':' <start> ':' <count> ':' <f>     f = rename fails
+T <transition case>                    (see `Mutagen.Driver.TransFS`)
+hash  := '-' | dataHex '>' digestHex {',' …}
+```
+Answers: `S`: one token per command (`<result>[:<value>]/<files>/<temps>`) then the
+store state; `R`: the store state; `T`: as for C08/C09.
+Store state: `files=<digestHex>@<path>=<contentHex>,… prefixes=<hexByte><d|f>,… temps=<n> root=<a|f|d>`.
+-/
+namespace Mutagen.Driver.C10
+open Mutagen.Driver Mutagen.Driver.Tree Mutagen.Model.Store
+
+def showErr : Err → String
+  | .ok => "ok" | .uninitialized => "uninit" | .digestEmpty => "digest-empty" | .root => "root" | .alloc => "alloc"
+  | .size => "size" | .prefixDir => "prefix" | .rename => "rename" | .unknownStorage => "unknown-storage"
+
+def parseHashTable (s : String) : Option (List (Bytes × Bytes)) := Mutagen.Driver.TransFS.parseHash s
+
+def tableH (t : List (Bytes × Bytes)) (d : Bytes) : Bytes := ((t.find? (·.1 == d)).map (·.2)).getD []
+
+/-- The driver's path hash: the path itself (distinct paths are assumed not to
+collide under xxh3-128). -/
+def phId (p : String) : Bytes := p.toUTF8.toList
+
+def showState (s : State) : String :=
+  match s.root with
+  | .absent => "files=- prefixes=- temps=0 root=a"
+  | .nondir => "files=- prefixes=- temps=0 root=f"
+  | .dir d =>
+    let files := sortStrings (d.files.map fun ((dig, ph), c) =>
+      encHex dig ++ "@" ++ encText ((String.fromUTF8? (ByteArray.mk ph.toArray)).getD "?") ++ "=" ++ encHex c)
+    let pre := sortStrings (d.prefixes.map fun (b, isDir) => encHex [b] ++ (if isDir then "d" else "f"))
+    "files=" ++ (if files.isEmpty then "-" else ",".intercalate files) ++
+    " prefixes=" ++ (if pre.isEmpty then "-" else ",".intercalate pre) ++
+    " temps=" ++ toString d.temps.length ++ " root=d"
+
+def counts (s : State) : String :=
+  match s.root with
+  | .dir d => "/" ++ toString d.files.length ++ "/" ++ toString d.temps.length
+  | _ => "/0/0"
+
+def stepCmd (P : Params) (s : State) (cmd : String) : Option (State × String) :=
+  match cmd.splitOn ":" with
+  | ["init"] => let (e, s) := storeInitialize s; some (s, showErr e)
+  | ["alloc"] =>
+    match allocate s with
+    | (e, some id, s) => some (s, showErr e ++ ":" ++ toString id)
+    | (e, none, s) => some (s, showErr e)
+  | ["w", id, h] => do
+    let (e, s) := write s (← id.toNat?) (← decHex h)
+    pure (s, showErr e)
+  | ["c", id, p, f] => do
+    let (e, s) := commit P s (← id.toNat?) (← decText p) (f == "1")
+    pure (s, showErr e)
+  | ["d", id] => do
+    let (e, s) := discard s (← id.toNat?)
+    pure (s, showErr e)
+  | ["has", p, d] => do
+    let (e, b) := contains P s (← decText p) (← decHex d)
+    pure (s, showErr e ++ ":" ++ showBool b)
+  | ["path", p, d] => do
+    let (e, _) := path P s (← decText p) (← decHex d)
+    pure (s, showErr e)
+  | ["fin"] => let (e, s) := storeFinalize s; some (s, showErr e)
+  | ["block", b] => do
+    match ← decHex b with
+    | [x] => pure (exec P s (.block x), "ok")
+    | _ => none
+  | ["rootfile"] => some (exec P s .rootFile, "ok")
+  | _ => none
+
+def runCmds (P : Params) : State → List String → List String → Option (State × List String)
+  | s, [], acc => some (s, acc.reverse)
+  | s, c :: r, acc => do
+    let (s, out) ← stepCmd P s c
+    runCmds P s r ((out ++ counts s) :: acc)
+
+def parseRFile (s : String) : Option RFile :=
+  match s.splitOn "/" with
+  | [p, b, bs, ls, n] => do
+    let base ← if b == "!" then some none else (decHex b).map some
+    pure { path := ← decText p, base := base, blockSize := ← bs.toNat?, lastBlockSize := ← ls.toNat?, blocks := ← n.toNat? }
+  | _ => none
+
+def parseMsg (s : String) : Option (Msg × Bool) :=
+  match s.toList with
+  | ['D', f] => some (.done, f == '1')
+  | 'o' :: rest =>
+    match (String.ofList rest).splitOn ":" with
+    | [h, st, ct, f] => do pure (.op (← decHex h) (← st.toNat?) (← ct.toNat?), f == "1")
+    | _ => none
+  | _ => none
+
+def handle (line : String) : String :=
+  match fields line with
+  | "T" :: rest => Mutagen.Driver.TransFS.handle (" ".intercalate rest)
+  | "S" :: maxSize :: hash :: cmds =>
+    match maxSize.toNat?, parseHashTable hash with
+    | some m, some t =>
+      let P : Params := { H := tableH t, ph := phId }
+      match runCmds P { maxSize := m } cmds [] with
+      | some (s, outs) => " ".intercalate outs ++ " |" ++ showState s
+      | none => "bad-op"
+    | _, _ => "bad-op"
+  | ["R", maxSize, hash, files, msgs] =>
+    let parsed := do
+      let m ← maxSize.toNat?
+      let t ← parseHashTable hash
+      let fs ← (files.splitOn ";").mapM parseRFile
+      let ms ← if msgs == "-" then some [] else (msgs.splitOn ",").mapM parseMsg
+      pure (m, t, fs, ms)
+    match parsed with
+    | some (m, t, fs, ms) =>
+      let P : Params := { H := tableH t, ph := phId }
+      let s0 := (storeInitialize { maxSize := m }).2
+      let (_, s) := receiveAll P { files := fs } s0 ms
+      showState s
+    | none => "bad-op"
+  | _ => "bad-op"
 
 end Mutagen.Driver.C10
